@@ -1275,10 +1275,35 @@ class Interp:
                 raise _SymComp(sym, g)
             for it in self.iter_concrete(itv):
                 self.assign(g.target, it, sub)
+                if len(gens) == 1 and g.ifs:
+                    # a filter that the path condition does not decide keeps the element conditionally: the result is the
+                    # order-preserving compaction (A.compact) instead of 2^n paths
+                    keep = True
+                    for c in g.ifs:
+                        cv = self.eval(c, sub)
+                        try:
+                            if not self.decide(cv):
+                                keep = False
+                                break
+                        except Fork as f:
+                            keep = sv.and_(keep, SV(f.cond)) if keep is not True else SV(f.cond)
+                    if keep is False:
+                        continue
+                    v = self.eval(node.elt, sub)
+                    if keep is not True:
+                        symbolic_keep.append(True)
+                    out.append(v)
+                    keeps.append(keep)
+                    continue
                 if all(self.decide(self.eval(c, sub)) for c in g.ifs):
                     rec(k + 1)
+        keeps, symbolic_keep = [], []
         try:
             rec(0)
+            if symbolic_keep:
+                if not all(sv.is_scalar(norm(x)) for x in out):
+                    raise EngineError("filtered comprehension with symbolic filter over non-scalar elements")
+                return Ref(cur().alloc(Content("list", A.compact([norm(x) for x in out], keeps))), "list")
         except _SymComp as sc:
             if len(gens) != 1 or gens[0].ifs:
                 raise EngineError("symbolic comprehension with filter / nesting")
@@ -1304,6 +1329,14 @@ class Interp:
                 return None
             n, item = sub
             start = v.start
+            guard = getattr(item, "guard", None)
+            if guard is not None:
+                if not (sv.is_conc(start) and start == 0):
+                    raise EngineError("enumerate(selection, start)")
+                it2 = lambda i: (A.MaskRank(i, n, guard), item(i))
+                it2.guard = guard
+                it2.masked = item.masked
+                return n, it2
             return n, (lambda i: (A.simp(sv.add(start, i)), item(i)))
         if isinstance(v, Ref) and v.kind == "list" and isinstance(v.content, A.SeqVal):
             c = v.content
@@ -1313,6 +1346,14 @@ class Interp:
         from .text import TokList
         if isinstance(v, TokList) and not v.concrete():
             return v.n, v.fn
+        if isinstance(v, A.Masked) and v.rest == ():
+            # iteration over a boolean-mask selection: over the underlying positions, guarded by the mask (the loop
+            # rule refuses guarded spaces unless a written summary handles the guard)
+            src, mask = v.src, v.mask
+            item = lambda i: src((i,))
+            item.guard = mask
+            item.masked = v
+            return v.n, item
         return None
 
     def ev_Call(self, node, frame):
